@@ -6,7 +6,7 @@ executor is a pure function of the case and the code under test.
 
 from __future__ import annotations
 
-from . import gen, reader, session
+from . import gen, model, reader, session
 from .core import Streams, Violation
 from .model import DocModel
 
@@ -156,6 +156,21 @@ class C04(SessionProperty):
 
 
 class C09(SessionProperty):
+    def generate(self, seed: int, tier: str) -> dict:
+        case = SessionProperty.generate(self, seed, tier)
+        rng = Streams(seed)("scope_del")
+        if rng.random() < 0.2 and case["ops"]:
+            # the live object's layer list is also changed behind the CLI helpers' back: a binding of the
+            # outermost layer is deleted through the scope mapping, then the scoped edits go on
+            dec = reader.decode(case["doc"])
+            if not dec.error and dec.shape.editable and len(dec.layers) >= 2 and all(k == "let" for k in dec.shape.kinds()):
+                names = [m[1][0] for m in dec.layers[-1] if m[0] == "b" and len(m[1]) == 1 and model._BARE.match(m[1][0])]
+                if names:
+                    pos = rng.randrange(len(case["ops"]))
+                    case["ops"].insert(pos, {"op": "scope_del", "name": rng.choice(names)})
+                    case["ops"].insert(pos + 1, {"op": "set", "path": "@" * len(dec.layers) + rng.choice(["x", "nu"]), "value": "7"})
+        return case
+
     def execute(self, case: dict):
         steps = session.run_history(case["doc"], case["ops"])
         counters: dict = {}
